@@ -52,6 +52,7 @@ def make_template(exe, root):
     open(os.path.join(t, "BadH.wenc"), "wb").write(e[:9] + b"\x03" + e[10:])       # first hash-mode value out of range
     open(os.path.join(t, "Tam.wenc"), "wb").write(e[:-1] + bytes([e[-1] ^ 1]))
     open(os.path.join(t, "Empty.bin"), "wb").write(b"")
+    open(os.path.join(t, "O.out"), "wb").write(b"Z" * 3000)          # the output of -o already exists and is longer than anything written: it must be replaced, not patched
     return t
 
 
@@ -102,9 +103,11 @@ def one_vector(exe, template, root, idx, vec):
             else:
                 r1, o1, _ = run_bin(exe, ["-v", "-i", outp, "-k", key, "-n"], d)
                 r2, o2, _ = run_bin(exe, ["-d", "-i", outp, "-o", "back.bin", "-k", key, "-n"], d)
-                src = open(os.path.join(d, inp), "rb").read() if not inp.endswith(".wenc") else open(os.path.join(template, inp), "rb").read()   # os.path.join keeps an absolute inp
+                src = open(os.path.join(template, inp), "rb").read()   # the ORIGINAL input (os.path.join keeps an absolute inp); a run that altered its input must not pass
+                if not os.path.isabs(inp) and open(os.path.join(d, inp), "rb").read() != src:
+                    ok, note = False, "the input file was modified"
                 back = open(os.path.join(d, "back.bin"), "rb").read() if os.path.exists(os.path.join(d, "back.bin")) else None
-                if r1 != 0 or r2 != 0 or back != src:
+                if ok and (r1 != 0 or r2 != 0 or back != src):
                     ok, note = False, "output does not verify/decrypt back to the input with the key (verify rc=%s decrypt rc=%s)" % (r1, r2)
         elif mode == "d":
             p = os.path.join(d, "O.out")
@@ -113,8 +116,10 @@ def one_vector(exe, template, root, idx, vec):
         elif mode == "v":
             if [f for f in after if f not in before and f != "O.out"]:
                 ok, note = False, "verify created files: %s" % [f for f in after if f not in before]
-            elif os.path.exists(os.path.join(d, "O.out")) and os.path.getsize(os.path.join(d, "O.out")) > 0:
+            elif "oO" in toks and os.path.exists(os.path.join(d, "O.out")) and os.path.getsize(os.path.join(d, "O.out")) > 0:
                 ok, note = False, "verify wrote %d bytes to the file given with -o" % os.path.getsize(os.path.join(d, "O.out"))
+            elif "oO" not in toks and open(os.path.join(d, "O.out"), "rb").read() != b"Z" * 3000:
+                ok, note = False, "verify changed a file it was not given"
         ev["effect"], ev["effect_note"] = (1 if ok else 0), note
     shutil.rmtree(d, ignore_errors=True)
     return ev
